@@ -107,7 +107,16 @@ Inductive bop :=
 | BPub (ch : Z) (rs : list rec)  (* processors[ch].PublishData(rs) *)
 | BFlush (ch : Z)                (* processors[ch].DataPublisher.Flush() *)
 | BPause | BUnpause
-| BStop.
+| BStop
+| BPulse (nsamp npre : Z).       (* SourceControl.ConfigurePulseLengths{Nsamp, Npre} (the RPC entry point) *)
+
+(* what a successful change of the record lengths does to the source's tables: the new lengths are in force
+   and every channel loses its projectors (dsp.ConfigurePulseLengths -> removeProjectorsBasis) *)
+Definition with_lens (sp : srcp) (npre nsamp : Z) : srcp :=
+  mksrcp (sp_nchan sp) (sp_source sp) (sp_sfdiv sp) npre nsamp (sp_tbn sp) (sp_tbd sp) (sp_tb64 sp) (sp_tbm sp) (sp_tbe sp).
+Definition clear_proj (c : chanp) : chanp :=
+  mkchanp (cp_index c) (cp_name c) (cp_number c) (cp_rows c) (cp_cols c) (cp_row c) (cp_col c) (cp_sfoff c)
+          (cp_px c) (cp_py c) (cp_pname c) None.
 
 Record chfiles := mkcf { cf22 : fobs hdr22; cf3 : fobs hdr3; cfoff : fobs hdroff }.
 
